@@ -1,6 +1,7 @@
 import KyberModel.Props.C04
 import KyberModel.Lib.DecodeComplete
 import KyberModel.Lib.WeierstrassFacts
+import KyberModel.Lib.BlsG2RoundTrip
 /-
 # C03, continued — round trip and injectivity for the remaining encodings
 
@@ -10,6 +11,8 @@ import KyberModel.Lib.WeierstrassFacts
 * BLS12-381 G1 in the ZCash compressed form (a square root is recomputed on decoding: completeness of
   `a^((p+1)/4)` for `p ≡ 3 mod 4` and the "larger root" flag, `Lib/DecodeComplete.lean`),
 * BN256 G2 and BN254 G2 (four 32-byte coordinates over `Fp2`; BN254 also tests the order),
+* BLS12-381 G2 in the compressed form (96 bytes; for every value the decoder accepts — completeness of the
+  `Fp2` square root for arbitrary valid points is not proved),
 * residue (Schnorr) groups such as QR512 (big-endian, padded to the length of the modulus).
 
 The hypotheses are the decidable validity predicates of the reference models, which the generators and
@@ -143,6 +146,37 @@ theorem dec_valid (bs : Bytes) (P : Fp2.Pt) (h : decG2 bs = some P) : Valid P :=
   obtain ⟨hc, hr, hl⟩ := C04.BN254G2.decG2_valid bs P h
   exact ⟨hc, hr, fun x y hxy => by obtain ⟨a, b, c, d, _⟩ := hl x y hxy; exact ⟨a, b, c, d⟩⟩
 end BN254G2
+
+/-! ### BLS12-381 G2, compressed (kilic, CIRCL, gnark) -/
+namespace BLSG2
+open Kyber.BLS12381
+
+/-- The values the decoder accepts (valid members: `Props/C04More.lean`). -/
+def Accepted (P : Fp2.Pt) : Prop := ∃ bs, decG2 bs = some P
+
+theorem enc_length (P : Fp2.Pt) : (encG2 P).length = 96 := by
+  cases P with
+  | none => simp [encG2]
+  | some xy =>
+    obtain ⟨x, y⟩ := xy
+    have h : (encodeBE 48 x.2 ++ encodeBE 48 x.1).length = 96 := by simp
+    simp only [encG2]
+    cases hb : encodeBE 48 x.2 ++ encodeBE 48 x.1 with
+    | nil => rw [hb] at h; simp at h
+    | cons b0 rest => rw [hb] at h; simpa using h
+
+/-- Re-encoding an accepted value decodes to the same value: the flag written by `encG2` selects the same
+    root again, whichever root the `Fp2` square root returned. -/
+theorem roundtrip (P : Fp2.Pt) (hP : Accepted P) : decG2 (encG2 P) = some P := by
+  obtain ⟨bs, h⟩ := hP
+  exact BlsG2Dec.decG2_enc bs P h
+
+theorem enc_injective (P Q : Fp2.Pt) (hP : Accepted P) (hQ : Accepted Q) (h : encG2 P = encG2 Q) : P = Q :=
+  inj_of_roundtrip encG2 decG2 Accepted roundtrip P Q hP hQ h
+
+/-- Non-vacuity: the generator is an accepted value. -/
+example : Accepted g2Base := ⟨encG2 g2Base, TwistFacts.bls_base_roundtrip⟩
+end BLSG2
 
 /-! ### Residue groups -/
 namespace ResidueEnc
